@@ -450,7 +450,7 @@ class MinMaxAndCount(base.MergeableMetric):
   axis: int | None = None
   _count: int = 0
   _min: int = np.inf
-  _max: int = 0
+  _max: int = -np.inf
 
   def as_agg_fn(self) -> base.AggregateFn:
     return base.as_agg_fn(self.__class__, self.batch_score_fn, self.axis)
